@@ -235,7 +235,21 @@ def conclude(pid, tier, seed, prop, reg, funcs, all_obs, results, texts, native,
                                 smt2_bytes=results[i].get('size'), verdict=results[i]['verdict'],
                                 backend=results[i]['backend'], seconds=round(results[i]['seconds'], 3)))
     trusted = trusted_base(reg, funcs)
-    level = 'proof'
+    level = 'proof' if n_dis > 0 else 'exploration'
+    try:
+        man = json.load(open(os.path.join(VERIF, 'MANIFEST.json')))
+        for chk in man.get('checks', []):
+            if chk['property_id'] == pid:
+                level = chk['level_claimed']['category']
+    except Exception:
+        pass
+    if level == 'proof' and n_dis == 0:
+        level = 'exploration'
+    native_distinct = sum(o.get('distinct_accepted', 0) for o in native.values())
+    native_samples = []
+    for (t_, v_), o in sorted(native.items()):
+        for smp in o.get('samples', [])[:1]:
+            native_samples.append(dict(function=t_, variant=v_, recipe=smp))
     evidence = dict(
         property_id=pid, tier=tier, seed=seed, level=level,
         coverage=dict(
@@ -257,7 +271,11 @@ def conclude(pid, tier, seed, prop, reg, funcs, all_obs, results, texts, native,
                               note="real functions run under /venv/bin/python on generated inputs with the same contract "
                                    "clauses evaluated as Python: reachability witness for every precondition and "
                                    "CPython cross-check of the contracts; bounded, never counted as proof"),
-            samples=samples,
+            samples=samples if n_dis > 0 else native_samples[:6],
+            evaluations=native_evals, distinct_nontrivial=native_distinct,
+            rule=('bounded stand-in: the real functions run under /venv/bin/python on inputs produced by the generators '
+                  'declared next to each contract (bounds quoted per function under `bounded`); an input is counted when it '
+                  'satisfies the contract\'s requires; distinct = distinct generator recipes (SHA-1 of the recipe)'),
             known_findings=known_lines,
             vacuity=dict(zero_obligations=(total_obs == 0), checker_errors=checker_errors),
             source_files={m: hashlib.sha256(mi.source.encode()).hexdigest()[:16] for m, mi in reg.world.modules.items()},
